@@ -428,6 +428,12 @@ def run(tier):
             if r2.violated != inv:
                 raise MachineryError('falsifiability guard: %s as-it-was variant is not refuted (%s)' % (mod, r2.violated))
             rep.cov.setdefault('models', {})[mod] = dict(states=r.distinct, transitions=r.generated, as_was_variant_refuted=True)
+        # ... and for ANY number of threads and rows: the TLA+ proof system checks the inductive-invariant proof of
+        # Spec => [](AtomicTable /\ Linearizable) for the build-then-publish model (Proof_LazyPublish.tla)
+        nobl = common.run_tlapm(specdir, 'Proof_LazyPublish')
+        rep.setcov('machine_checked_proof', dict(tool='tlapm', module='Proof_LazyPublish', theorem='Safe', obligations_proved=nobl,
+                                                 meaning='LazyPublish with PublishFirst = FALSE: AtomicTable and Linearizable hold in every reachable '
+                                                         'state for any number of threads and any table size (inductive invariant IndInv)'))
         phases['models'] = round(_t.time() - t0, 1)
         # (b) real code under the scheduler
         S = scenarios(quick)
